@@ -330,3 +330,30 @@ Definition al_init (k : kind) (rows : list (Z * list Z)) : res oalign :=
 
 (** [to_dict()] *)
 Definition al_strings (a : oalign) : list (Z * list Z) := map (fun nr => (fst nr, row_gapped (snd nr))) a.
+
+(** ** read-only methods that are functions of the rows (default arguments) *)
+
+(** [moltype.gaps] of the DNA / RNA / protein moltypes: '-' and '?' *)
+Definition is_gapch (c : Z) : bool := (c =? 45) || (c =? 63).
+
+Definition al_names (a : oalign) : list Z := map fst a.
+Definition al_num_seqs (a : oalign) : Z := zlen a.
+(** [get_gapped_seq(name)] *)
+Definition al_get_gapped_seq (a : oalign) (n : Z) : option (list Z) :=
+  match find_orow n a with Some r => Some (row_gapped r) | None => None end.
+(** [iter_positions] l.4806: [seqs = list(map(str, aligned_objs))], then [seq[pos]] for [pos in range(seq_len)] *)
+Definition al_positions (a : oalign) : list (list Z) :=
+  let seqs := map (fun nr => row_gapped (snd nr)) a in
+  map (fun pos => flat_map (fun s => zget s pos) seqs) (zrange 0 (al_len a)).
+(** [get_gap_array] l.2821: on the rows of [to_type(array_align=True)], i.e. of [to_dict()] *)
+Definition al_gap_array (a : oalign) : list (list bool) :=
+  map (fun nr => map is_gapch (row_gapped (snd nr))) a.
+(** [count_gaps_per_pos] l.2835: column sums of the gap array over [range(len(self))] *)
+Definition al_count_gaps_per_pos (a : oalign) : list Z :=
+  map (fun pos => zlen (filter (fun row => znth false row pos) (al_gap_array a))) (zrange 0 (al_len a)).
+(** [is_ragged] l.832 on [len(Aligned)] *)
+Definition al_is_ragged (a : oalign) : bool :=
+  match a with [] => false | (_, r) :: _ => negb (forallb (fun nr => row_len (snd nr) =? row_len r) a) end.
+(** [degap()] l.1135: [data.degap()] of every row *)
+Definition al_degap (a : oalign) : list (Z * list Z) :=
+  map (fun nr => (fst nr, filter (fun c => negb (is_gapch c)) (realise (adata (snd nr))))) a.
